@@ -233,7 +233,10 @@ class Gaussian(Prior):
         return self.sd**2
 
     def lnprob(self, p):
-        return self._lnprob_normalization - (p-self.mu)**2/(2*self.variance)
+        # (divide before squaring: squares of NumPy integers wrap around
+        # and squares of very large or small floats leave the float range)
+        zscore = (p - self.mu) / self.sd
+        return self._lnprob_normalization - zscore * zscore / 2
         # Turns out scipy.stats is noticably slower than doing it ourselves
         # return stats.norm.logpdf(p, self.mu, self.sd)
 
